@@ -98,14 +98,22 @@ def generate(rng, tier):
             for i in range(nin):
                 if i not in mapping:
                     mapping[rng.randrange(total)] = i
+            if rng.random() < 0.15 and m >= 2:
+                # targeted: the last member has two pixel axes on one input that an earlier member uses as well
+                # (what combined_wcs builds for two extra-coordinate tables on one array axis)
+                mshapes[-1] = [rng.choice([2, 3, 4]) for _ in range(2)]
+                total = sum(len(s) for s in mshapes)
+                nin = max(1, total - 2)
+                mapping = list(range(total - 2)) + [0, 0]
+                case["force_inconsistent"] = True
             r = rng.random()
-            if r < 0.08:
+            if r < 0.08 and not case.get("force_inconsistent"):
                 mapping = mapping[:-1] if total > 1 else mapping + [0]
             case["members"] = mshapes
             case["member_kinds"] = [rng.choice(["square", "square", "extra_world", "drop_world"]) for _ in mshapes]
             case["mapping"] = mapping
             case["fix_shapes"] = rng.random() < 0.85      # make shared axes agree in length
-            case["inconsistent"] = rng.random() < 0.3
+            case["inconsistent"] = rng.random() < 0.3 or bool(case.get("force_inconsistent"))
             case["pixels"] = [[rng.choice([0, 1, 2, 0.5, 1.25]) for _ in range(max(mapping) + 1)] for _ in range(4)]
             # pixel bounds of the members: none / all equal on shared axes / differing at one end / at both ends
             case["bounds_mode"] = rng.choice([None, None, "equal", "equal", "one_end", "both_ends", "some_none"])
